@@ -51,6 +51,10 @@ class DriverCrash(Exception):
         self.detail = detail
 
 
+class Inconclusive(Exception):
+    """the case could not be judged (watchdog); it is counted and skipped"""
+
+
 class Violation(Exception):
     """Raised by a property check when the oracle is contradicted."""
 
@@ -276,6 +280,7 @@ class Ctx:
         self.stats = Stats()
         self.driver = Driver(build_dir, self.tmpdir, watchdog=20 if tier == "quick" else 120)
         self.ub_is_fatal = prop_id in ("C18", "C19", "C20")
+        self.hang_is_violation = prop_id in ("C07", "C08", "C12", "C18")
 
     def path(self, name):
         return os.path.join(self.tmpdir, name)
@@ -294,6 +299,10 @@ class Ctx:
         try:
             outs = self.driver.run(lines, timeout=timeout)
         except DriverCrash as e:
+            if e.kind == "hang" and not self.hang_is_violation:
+                # a watchdog hit is "inconclusive", never a violation, unless the property itself claims termination
+                self.stats.count("inconclusive_watchdog_timeouts")
+                raise Inconclusive()
             raise Violation("driver %s: %s" % (e.kind, e.detail), case=case, script=lines)
         if self.ub_is_fatal:
             ub = self.driver.fatal_ub()
@@ -320,6 +329,8 @@ class Ctx:
         def test(case):
             try:
                 check(self, case)
+            except Inconclusive:
+                return
             except Violation as v:
                 if v.case is None:
                     v.case = case
@@ -377,6 +388,8 @@ def _worker(args):
                 ctx.driver.stop()
                 try:
                     mod.replay(ctx, getattr(v, "test", ""), v.case)
+                except Inconclusive:
+                    pass
                 except Violation as v2:
                     confirmed += 1
                     last = v2
@@ -419,6 +432,9 @@ def run_check(modname, prop_id, level, rule, assumptions, tier, seed, replay_pat
             mod.replay(ctx, rec.get("test", ""), rec["case"])
             print("replay: case passes")
             return 0
+        except Inconclusive:
+            print("replay: inconclusive (watchdog)")
+            return 0
         except Violation as v:
             print("replay: %s" % v.what)
             print("VIOLATION property=%s replay=%s" % (prop_id, replay_path))
@@ -442,6 +458,8 @@ def run_check(modname, prop_id, level, rule, assumptions, tier, seed, replay_pat
                 try:
                     mod.replay(ctx, rec.get("test", ""), rec["case"])
                     ctx.stats.count("replayed_witnesses")
+                except Inconclusive:
+                    pass
                 except Violation as v:
                     regress.append((fp, v.what))
         finally:
@@ -491,6 +509,8 @@ def run_check(modname, prop_id, level, rule, assumptions, tier, seed, replay_pat
                 try:
                     mod.replay(ctx, rec.get("test", ""), rec["case"], ignore_known=True)
                     known_lines.append("NOTE: known finding %s no longer reproduces" % k["id"])
+                except Inconclusive:
+                    known_lines.append("KNOWN-FINDING: property=%s %s" % (prop_id, k["what"]))
                 except Violation:
                     known_lines.append("KNOWN-FINDING: property=%s %s" % (prop_id, k["what"]))
         finally:
